@@ -1189,8 +1189,10 @@ def _kida(ctx, pkg):
     if not fills:
         ctx.unrec("R4", "KIDA:writer-widths", (R, w.lineno), "cannot find the KIDA writer's padded name lists (_fill_list([f'{x:<11}' for x in ..], n, ..))")
     else:
-        ctx.check(sorted(n_ for _, n_ in fills) == [3, 5], "R4", "KIDA:writer-widths", (R, w.lineno),
-                  "the KIDA writer pads 3 reactant and 5 product names to 11 columns each", found=str(sorted(n_ for _, n_ in fills)))
+        # (the same padded list may be met twice -- once where a helper builds it, once where the writer with its helpers put back
+        # does: what is compared is the set of counts the 11-column lists are filled to)
+        ctx.check(sorted({n_ for _, n_ in fills}) == [3, 5], "R4", "KIDA:writer-widths", (R, w.lineno),
+                  "the KIDA writer pads 3 reactant and 5 product names to 11 columns each", found=str(sorted({n_ for _, n_ in fills})))
     if len(cols) != 2:
         return
     end = cols["products"][0][1]           # the numeric tail is the text after the product block
